@@ -38,6 +38,7 @@ TEnd == /\ IsEvent("end") /\ Finish
         /\ TreeMatches(Ev.tree)
         /\ \A q \in 1..Len(Ev.queries) : Route(Ev.queries[q]) = Ev.pred[q]
         /\ (dev = 0 => Ev.scoreok /\ Ev.score = ObjLab(K, Lab(st)))
+        /\ Ev.score2ok                 \* score(other data of the same size) = objective of the labels predicted for it
 
 TNext == TSetup \/ TSplit \/ TZeroSplit \/ TNoGain \/ TKnownSplit \/ TKnownStop \/ TEnd
 TSpec == TInit /\ [][TNext]_tvars
@@ -57,7 +58,7 @@ Diag == [at |-> tid, l |-> l, ph |-> ph,
                ELSE IF More /\ Ev.e = "end"
                THEN [loopcond |-> LoopCond, labels |-> Ev.labels = Lab(st), leaves |-> Ev.leaves = st.leafOf,
                      tree |-> TreeMatches(Ev.tree), routing |-> \A q \in 1..Len(Ev.queries) : Route(Ev.queries[q]) = Ev.pred[q],
-                     score |-> Ev.score = ObjLab(K, Lab(st)), scoreok |-> Ev.scoreok]
+                     score |-> Ev.score = ObjLab(K, Lab(st)), scoreok |-> Ev.scoreok, score2 |-> Ev.score2ok]
                ELSE [none |-> TRUE]]
 Progress == PrintT(ToJson(Diag))
 ==============================================================================================================
